@@ -7,9 +7,11 @@ let mat name = try Hashtbl.find mats name with Not_found -> failwith ("nomat:" ^
 (* a decoder answer as digits: '0' -> 0, '1' -> 1, anything else (non-binary entry) -> 2 *)
 let zs_of_digits s =
   if s = "-" then [] else List.init (String.length s) (fun i -> match s.[i] with '0' -> Z0 | '1' -> Zpos XH | _ -> Zpos (XO XH))
+let bases : (string, bentry list) Hashtbl.t = Hashtbl.create 64
+let basis name = try Hashtbl.find bases name with Not_found -> let b = basis_of (mat name) in Hashtbl.replace bases name b; b
 let bit s = s = "1"
 let dispatch = function
-  | ["mat"; name; rows] -> Hashtbl.replace mats name (rows_of_string rows); "ok"
+  | ["mat"; name; rows] -> Hashtbl.replace mats name (rows_of_string rows); Hashtbl.remove bases name; "ok"
   | ["rok"; name; n; r; s] ->
       if recovery_ok (mat name) (nat_of_int (int_of_string n)) (zs_of_digits r) (bits_of_string s) then "1" else "0"
   | ["rokftp"; name; n; r; rows] ->
@@ -17,6 +19,9 @@ let dispatch = function
   | ["syn"; name; v] -> string_of_bits (syndrome_of (mat name) (bits_of_string v))
   | ["span"; name; n2; v] ->
       (match in_span (nat_of_int (int_of_string n2)) (mat name) (bits_of_string v) with
+       | Some c -> string_of_bits c | None -> "_")
+  | ["spanb"; name; n2; v] ->   (* same decision with the elimination basis computed once per matrix *)
+      (match in_span_with (basis name) (nat_of_int (int_of_string n2)) (mat name) (bits_of_string v) with
        | Some c -> string_of_bits c | None -> "_")
   | ["rank"; name] -> string_of_int (int_of_nat (rank (mat name)))
   | ["naive"; name; n; mq; s] ->
